@@ -23,6 +23,12 @@ Theorem C19_validate_is_entitywise : forall isSI isCompound isScalable vt vp k f
 Proof. exact sel_validate. Qed.
 Print Assumptions C19_validate_is_entitywise.
 
+(** the model the correspondence run ties to the working tree *)
+Theorem C19_current_model : forall isSI isCompound isScalable,
+  validate_current isSI isCompound isScalable = validate isSI isCompound isScalable tagUnits_variant propUnit_variant.
+Proof. exact (fun _ _ _ => eq_refl). Qed.
+Print Assumptions C19_current_model.
+
 (** SOUND — the statement about the current model: with the repaired Property rule "a file that
     satisfies every documented hard rule gets no error", with the pinned rule the same for files
     whose property units are all SI (see [sound_stmt]). *)
@@ -107,6 +113,15 @@ Theorem C19_complete_dimensions : forall isSI isCompound (isScalable convertible
     <= count_msgs (msg_eqb unknown_id interval_text) (errors (validate isSI isCompound isScalable vt vp f)).
 Proof. exact complete_dims_for. Qed.
 Print Assumptions C19_complete_dimensions.
+
+(** ... and per owning array (the array's own table followed by its dimensions' tables) *)
+Theorem C19_complete_dimensions_per_array : forall isSI isCompound (convertible : string -> string -> bool) a,
+  count_dims (breach convertible RUnsorted) (array_entities a)
+    <= count_msgs (msg_eqb unknown_id unsorted_text) (errors (walk_array isSI isCompound a))
+  /\ count_dims (breach convertible RInterval) (array_entities a)
+    <= count_msgs (msg_eqb unknown_id interval_text) (errors (walk_array isSI isCompound a)).
+Proof. exact (fun a b c => complete_dims_per_array_for a b (fun _ _ => true) c). Qed.
+Print Assumptions C19_complete_dimensions_per_array.
 
 (** SOFT — an entity that breaches soft rules only gets no error; the soft breaches the
     documentation's list names are reported as warnings about it *)
